@@ -308,71 +308,78 @@ func fspecSize(r *hx.Rng) float64 {
 	}
 }
 
+// fspecPair makes two non-dyadic rectangles in one of the relations that matter (equal, nested through fractions,
+// same far edge through a different sum, abutting through the rounded far edge, shifted, an edge moved by one ulp,
+// empty / negative, unrelated) and a probe point on / one ulp around an edge of one of them.
+func fspecPair(r *hx.Rng) (a, b [4]float64, px, py float64) {
+	a = [4]float64{fspecCoord(r), fspecCoord(r), fspecSize(r), fspecSize(r)}
+	switch r.Intn(9) {
+	case 0:
+		b = a
+	case 1: // nested through fractions of the size
+		fx, fy := float64(r.Range(0, 9))/10, float64(r.Range(0, 9))/10
+		b = [4]float64{a[0] + a[2]*fx, a[1] + a[3]*fy, a[2] * (1 - fx) * float64(r.Range(1, 10)) / 10, a[3] * (1 - fy) * float64(r.Range(1, 10)) / 10}
+	case 2: // same far edges reached through a different sum
+		dx, dy := float64(r.Range(1, 9))/10*a[2], float64(r.Range(1, 9))/10*a[3]
+		b = [4]float64{a[0] + dx, a[1] + dy, a[2] - dx, a[3] - dy}
+	case 3: // abutting through the rounded far edge
+		b = [4]float64{a[0] + a[2], a[1], fspecSize(r), a[3]}
+		if r.Bool() {
+			b = [4]float64{a[0], a[1] + a[3], a[2], fspecSize(r)}
+		}
+	case 4: // shifted
+		b = [4]float64{a[0] + float64(r.Range(-30, 30))/10, a[1] + float64(r.Range(-30, 30))/10, a[2], a[3]}
+	case 5: // an edge moved by one ulp
+		b = a
+		k := r.Intn(4)
+		if r.Bool() {
+			b[k] = math.Nextafter(b[k], math.Inf(1))
+		} else {
+			b[k] = math.Nextafter(b[k], math.Inf(-1))
+		}
+	case 6: // empty / negative
+		b = a
+		b[2+r.Intn(2)] = -float64(r.Intn(3)) / 10
+	default:
+		b = [4]float64{fspecCoord(r), fspecCoord(r), fspecSize(r), fspecSize(r)}
+	}
+	if r.Bool() {
+		a, b = b, a
+	}
+	// probe point: on / one ulp around an edge of one of the rectangles, or anywhere
+	src := a
+	if r.Bool() {
+		src = b
+	}
+	pick := func(lo, sz float64) float64 {
+		switch r.Intn(7) {
+		case 0:
+			return lo
+		case 1:
+			return math.Nextafter(lo, math.Inf(-1))
+		case 2:
+			return lo + sz
+		case 3:
+			return math.Nextafter(lo+sz, math.Inf(-1))
+		case 4:
+			return math.Nextafter(lo+sz, math.Inf(1))
+		case 5:
+			return lo + sz/2
+		default:
+			return fspecCoord(r)
+		}
+	}
+	px, py = pick(src[0], src[2]), pick(src[1], src[3])
+	return
+}
+
 func (a fspecArea) Gen(r *hx.Rng, n int, _ string, emit func(string)) {
 	for i := 0; i < n; i++ {
 		if r.Chance(1, 3) {
 			emit(a.genPoly(r))
 			continue
 		}
-		a := [4]float64{fspecCoord(r), fspecCoord(r), fspecSize(r), fspecSize(r)}
-		var b [4]float64
-		switch r.Intn(9) {
-		case 0:
-			b = a
-		case 1: // nested through fractions of the size
-			fx, fy := float64(r.Range(0, 9))/10, float64(r.Range(0, 9))/10
-			b = [4]float64{a[0] + a[2]*fx, a[1] + a[3]*fy, a[2] * (1 - fx) * float64(r.Range(1, 10)) / 10, a[3] * (1 - fy) * float64(r.Range(1, 10)) / 10}
-		case 2: // same far edges reached through a different sum
-			dx, dy := float64(r.Range(1, 9))/10*a[2], float64(r.Range(1, 9))/10*a[3]
-			b = [4]float64{a[0] + dx, a[1] + dy, a[2] - dx, a[3] - dy}
-		case 3: // abutting through the rounded far edge
-			b = [4]float64{a[0] + a[2], a[1], fspecSize(r), a[3]}
-			if r.Bool() {
-				b = [4]float64{a[0], a[1] + a[3], a[2], fspecSize(r)}
-			}
-		case 4: // shifted
-			b = [4]float64{a[0] + float64(r.Range(-30, 30))/10, a[1] + float64(r.Range(-30, 30))/10, a[2], a[3]}
-		case 5: // an edge moved by one ulp
-			b = a
-			k := r.Intn(4)
-			if r.Bool() {
-				b[k] = math.Nextafter(b[k], math.Inf(1))
-			} else {
-				b[k] = math.Nextafter(b[k], math.Inf(-1))
-			}
-		case 6: // empty / negative
-			b = a
-			b[2+r.Intn(2)] = -float64(r.Intn(3)) / 10
-		default:
-			b = [4]float64{fspecCoord(r), fspecCoord(r), fspecSize(r), fspecSize(r)}
-		}
-		if r.Bool() {
-			a, b = b, a
-		}
-		// probe point: on / one ulp around an edge of one of the rectangles, or anywhere
-		src := a
-		if r.Bool() {
-			src = b
-		}
-		pick := func(lo, sz float64) float64 {
-			switch r.Intn(7) {
-			case 0:
-				return lo
-			case 1:
-				return math.Nextafter(lo, math.Inf(-1))
-			case 2:
-				return lo + sz
-			case 3:
-				return math.Nextafter(lo+sz, math.Inf(-1))
-			case 4:
-				return math.Nextafter(lo+sz, math.Inf(1))
-			case 5:
-				return lo + sz/2
-			default:
-				return fspecCoord(r)
-			}
-		}
-		px, py := pick(src[0], src[2]), pick(src[1], src[3])
+		a, b, px, py := fspecPair(r)
 		all := append(append(a[:], b[:]...), px, py)
 		parts := make([]string, 0, 11)
 		fits32 := true
